@@ -84,7 +84,6 @@ impl Cors {
     pub fn _process(request: &Request, cors: &Cors) -> Result<Vec<Header>, Error> {
         let mut headers : Vec<Header> = vec![];
 
-        let allow_origins = cors.allow_origins.join(",");
         let boxed_origin = request.get_header(Header::_ORIGIN.to_string());
 
         if boxed_origin.is_none() {
@@ -94,7 +93,7 @@ impl Cors {
         let origin = boxed_origin.unwrap();
         let origin_value = format!("{}", origin.value);
 
-        let is_valid_origin = allow_origins.contains(&origin_value);
+        let is_valid_origin = cors.allow_origins.contains(&origin_value);
         if !is_valid_origin {
             return Ok(headers)
         }
@@ -165,7 +164,7 @@ impl Cors {
         let origin = boxed_origin.unwrap();
         let origin_value = format!("{}", origin.value);
 
-        let is_valid_origin = allow_origins.contains(&origin_value);
+        let is_valid_origin = allow_origins.split(',').any(|allowed| !allowed.is_empty() && allowed == origin_value);
         if !is_valid_origin {
             return Ok(headers)
         }
